@@ -485,7 +485,10 @@ def twin_defs(rng, n):
         extra = [adef.mk_register(f"Plain{sfx}", 40, 16, [], byte_order=bo, reset_value=rng.randrange(1, 1 << 16))]
         if act_first:
             extra.append(adef.mk_ref(f"Twref{sfx}", f"Tw{sfx}", {"kind": "register", "address": 60}))
-            extra.append(adef.mk_ref(f"Twov{sfx}", f"Tw{sfx}", {"kind": "register", "address": 70, "reset_value": rng.randrange(1, 1 << min(size, 30))}))
+        # a ref with its OWN reset value in both orders: its constructor new_as_<ref> belongs to every twin's field set
+        # (seed C08-9 handed the ref overrides to the first twin only; the twins have the same size and orders, so which of
+        # them the override is converted for does not matter)
+        extra.append(adef.mk_ref(f"Twov{sfx}", f"Tw{sfx}", {"kind": "register", "address": 70, "reset_value": rng.randrange(1, 1 << min(size, 30))}))
         cfg = adef.mk_config(register_address_type="u16")
         full = {"config": cfg, "objects": ([act, ina] if act_first else [ina, act]) + extra}
         only = {"config": cfg, "objects": [dict(act, cfg=None)] + extra}
